@@ -18,6 +18,7 @@
 from __future__ import annotations
 
 import collections
+import fractions
 import functools
 import logging
 import numbers
@@ -130,10 +131,25 @@ def hash_mutable(obj) -> int:
         )
 
     if isinstance(obj, np.ndarray):
-        return hash(obj.tobytes())
+        # arrays of different type or shape can have identical data buffers
+        return hash((obj.dtype.str, obj.shape, obj.tobytes()))
 
     if isinstance(obj, slice):
         return hash((obj.start, obj.stop, obj.step))
+
+    if isinstance(obj, numbers.Number):
+        # The internal hash function does not distinguish some numbers, e.g., -1 and
+        # -2. We thus hash the exact value, so equal numbers still get the same hash.
+        if not isinstance(obj, numbers.Real) and obj.imag == 0:
+            obj = obj.real
+        try:
+            if isinstance(obj, numbers.Rational):
+                return hash(("number", str(fractions.Fraction(obj))))
+            if isinstance(obj, numbers.Real):
+                return hash(("number", str(fractions.Fraction(float(obj)))))
+        except (OverflowError, ValueError):
+            pass  # infinite values and NaN are handled below
+        return hash(("number", repr(complex(obj) + 0.0)))
 
     try:
         # try using the internal hash function
